@@ -1,6 +1,7 @@
 package main
 
 import (
+	"sync/atomic"
 	"bufio"
 	"bytes"
 	"context"
@@ -444,7 +445,13 @@ func (w *worker) runOne(solver, smt string, timeout int) string {
 	return resp.Status
 }
 
+// failFast (quick tier, not when writing a baseline): see solveAll.
+var failFast bool
+
+const failFastAfter = 24
+
 func solveAll(jobs []job, timeout int, workers int) []*Verdict {
+	var failed int64
 	res := make([]*Verdict, len(jobs))
 	var wg sync.WaitGroup
 	ch := make(chan int)
@@ -455,7 +462,16 @@ func solveAll(jobs []job, timeout int, workers int) []*Verdict {
 			wk := <-workerPool
 			defer func() { workerPool <- wk }()
 			for i := range ch {
-				res[i] = jobs[i].e.solveVia(wk, jobs[i].o, timeout)
+				t := timeout
+				// once many obligations have failed the verdict of the run is settled (broken tree): spend only the short
+				// first stage on the rest, so that a check on a badly broken tree still ends in bounded time
+				if failFast && atomic.LoadInt64(&failed) > failFastAfter && t > 3 {
+					t = 3
+				}
+				res[i] = jobs[i].e.solveVia(wk, jobs[i].o, t)
+				if res[i].Status != "discharged" {
+					atomic.AddInt64(&failed, 1)
+				}
 			}
 		}()
 	}
